@@ -35,11 +35,22 @@ TEXT = {
                 note=NOTE),
 }
 
+TEXT["C18"] = dict(ref="DESIGN.md 4 C18", technique="TLC model checking + TLC-generated scenarios (meta calls, kills, testaments) replayed on the router + TLC trace validation",
+    level=TL + "For C18 every meta procedure is an operator over the specification state (Core.tla MetaCallFx) and every meta event an output of the "
+    "action that changes the state; scenarios interleave meta calls, kills and testaments with subscribe/register churn; compared: RESULT/ERROR of "
+    "wamp.* calls, EVENTs on wamp.* topics (with the orders on_create<on_subscribe/on_register, on_unsubscribe/on_unregister<on_delete), GOODBYE/CLOSED at victims.",
+    note=NOTE + "Concurrently ending victims of one kill are compared on GOODBYE/CLOSED only. `created` timestamps, modify_details and meta_strict are not compared.")
+TEXT["C20"] = dict(ref="DESIGN.md 4 C20", technique="TLC model checking + TLC-generated scenarios (history configs, publish sequences, filters) replayed on the router + TLC trace validation",
+    level=TL + "For C20 leg 1 checks hist[k] = last N unrestricted matching publications for every interleaving of publish/subscribe/unsubscribe/leave; "
+    "scenarios run against realms configured with exact/prefix/wildcard history and call wamp.subscription.get_events with every single filter; publication "
+    "ids never observed before are bound when get_events first shows them.",
+    note=NOTE + "reverse+limit combinations are not generated (statement leaves open which end is cut); callers are in-process peers, the serialised encodings of filter arguments belong to the C15 transport family.")
+
 NOT_APPLICABLE = {}
 
 ENGINES = [
     {"name": "core", "path": "/verif/tools/families.py run_core; spec/Core.tla MC.tla Gen.tla Trace.tla; harness/exec.go",
-     "serves_properties": ["C01", "C02", "C03", "C05", "C13"],
+     "serves_properties": ["C01", "C02", "C03", "C05", "C13", "C18", "C20"],
      "kind_free_text": "TLC model checking, TLC scenario generation, replay into the real router under synctest, TLC trace validation"},
 ]
 
